@@ -1623,13 +1623,13 @@ func (c *Client) runHandleInvocation(msg *wamp.Invocation) {
 		// as ErrNoSuchProcedure, since the dealer has a procedure registered.
 		// It is reported as ErrInvalidArgument to denote that the client has a
 		// problem with the registration ID argument.
-		c.sess.Send() <- &wamp.Error{
+		c.runSend(&wamp.Error{
 			Type:      wamp.INVOCATION,
 			Request:   reqID,
 			Details:   wamp.Dict{},
 			Error:     wamp.ErrInvalidArgument,
 			Arguments: wamp.List{errMsg},
-		}
+		})
 		c.log.Print(errMsg)
 		return
 	}
@@ -1639,13 +1639,13 @@ func (c *Client) runHandleInvocation(msg *wamp.Invocation) {
 	if pptScheme, _ := msg.Details[wamp.OptPPTScheme].(string); pptScheme != "" {
 		if !isPPTSchemeValid(pptScheme) {
 			c.sess.Unlock()
-			c.sess.Send() <- &wamp.Error{
+			c.runSend(&wamp.Error{
 				Type:      wamp.INVOCATION,
 				Request:   reqID,
 				Details:   wamp.Dict{},
 				Error:     wamp.ErrInvalidArgument,
 				Arguments: wamp.List{ErrPPTSchemeInvalid.Error()},
-			}
+			})
 			c.log.Printf("cannot process invocation with invalid ppt schema %q: %v", pptScheme, ErrPPTSchemeInvalid)
 			return
 		}
@@ -1664,13 +1664,13 @@ func (c *Client) runHandleInvocation(msg *wamp.Invocation) {
 
 		if err != nil {
 			c.sess.Unlock()
-			c.sess.Send() <- &wamp.Error{
+			c.runSend(&wamp.Error{
 				Type:      wamp.INVOCATION,
 				Request:   reqID,
 				Details:   wamp.Dict{},
 				Error:     wamp.ErrInvalidArgument,
 				Arguments: wamp.List{err.Error()},
-			}
+			})
 			c.log.Printf("cannot unpack invocation message: %v", err)
 			return
 		}
@@ -1929,6 +1929,20 @@ func (c *Client) runHandleInvocation(msg *wamp.Invocation) {
 			case <-c.ctx.Done():
 			}
 		}()
+	}
+}
+
+// runSend sends a message to the router from the run() goroutine. run() is
+// the goroutine that notices when the router says goodbye or the transport
+// ends, so it must not block indefinitely on a send that nobody may ever
+// take: then Done() would never be signalled and Close() would never return.
+func (c *Client) runSend(msg wamp.Message) {
+	timer := time.NewTimer(c.responseTimeout)
+	defer timer.Stop()
+	select {
+	case c.sess.Send() <- msg:
+	case <-timer.C:
+		c.log.Println("Could not send", msg.MessageType(), "to router: blocked")
 	}
 }
 
